@@ -98,6 +98,7 @@ fn render_file(lines: &[Value], final_newline: bool) -> String {
                 "ei" => s.push_str("\\endinput "),
                 "lb" => s.push('{'),
                 "rb" => s.push('}'),
+                "cm" => s.push_str("% end"),
                 k => panic!("unknown item {k}"),
             }
         }
@@ -267,7 +268,7 @@ fn tokv_json(t: &TokV) -> Value {
 
 /// The three read files of MC_TexInputB (TheFiles), rendered from the same token description.
 fn read_files(variant: u64) -> Vec<(String, String)> {
-    let f1 = json!([[it("x", 1)], [it("x", 2)]]);
+    let f1 = json!([[it("x", 1)], [it("x", 2), it("cm", 0)], [it("cm", 0)]]);
     let f2 = json!([[it("x", 1), it("lb", 0)], [it("x", 2), it("rb", 0), it("x", 3)], [it("x", 1), it("rb", 0), it("x", 2)], []]);
     let f3 = json!([]);
     let f4 = json!([[it("x", 3)], [it("x", 1), it("lb", 0), it("x", 2), it("rb", 0), it("rb", 0), it("x", 3)]]);
